@@ -519,7 +519,11 @@ func (fr *Frame) callSpecAssumesKind(ci *calleeInfo, kind string, args []Term, a
 			}
 			env.vars[fmt.Sprintf("res%d", i)] = Binding{r, ty}
 		}
+		nBefore := len(fr.c.facts)
 		fr.c.assume(implies(fr.reach, env.mustBool(cs.E)))
+		// vacuity guard: the path must stay feasible with the assumption (checked by a pair of
+		// satisfiability probes: feasible before, infeasible after = the assumption contradicts the path)
+		fr.c.assumeProbes = append(fr.c.assumeProbes, assumeProbe{nBefore: nBefore, nAfter: len(fr.c.facts), reach: fr.reach.S, src: cs.Src})
 		top.callOrd["fired:"+cs.Src] = 1
 		fr.c.assumed["explicit assumption in contract of "+shortKey(top.fc.Key)+": "+cs.Src] = true
 	}
